@@ -11,7 +11,11 @@ for f in sorted(glob.glob('/verif/evidence/C*.json')):
     e=json.load(open(f))
     st=e['coverage'].get('self_test',{}).get('results',[])
     for r in st:
-        rows.append((r['seed'], r.get('applied'), r.get('detected'), (r.get('reported') or [''])[0]))
-for r in rows: print("%-7s applied=%-5s detected=%-5s %s" % r)
-print("missed:", [r[0] for r in rows if r[1] and not r[2]], "not applicable:", [r[0] for r in rows if not r[1]])
+        rows.append((r['seed'], r.get('applied'), r.get('detected'), (r.get('reported') or [''])[0], r.get('expected', 'reported'), e['property_id']))
+for r in rows:
+    if r[4] == 'reported': print("%-7s applied=%-5s detected=%-5s %s" % r[:4])
+br = [r for r in rows if r[4] == 'reported']
+bq = [r for r in rows if r[4] == 'quiet']
+print("breaking changes: %d, reported: %d, missed: %s, not applicable: %s" % (len(br), sum(1 for r in br if r[2]), [r[0] for r in br if r[1] and not r[2]], [r[0] for r in br if not r[1]]))
+print("benign runs: %d, false alarms: %s" % (len(bq), [(r[5], r[0]) for r in bq if r[2]]))
 PY
